@@ -6,6 +6,14 @@ From CV Require Import Frame.FrameSafe.
 From CV Require Import Frame.FrameStream.
 From CV Require Import Frame.FrameThms.
 From CV Require Import Frame.FrameAlloc.
+From CV Require Import Frame.FramePacked.
+From CV Require Import Frame.FramePackedProofs.
+From CV Require Import Frame.FrameSim.
+From CV Require Import Frame.FramePackedThms.
+From CV Require Import Frame.FramePackedCut.
+From CV Require Import Base.GoSem.
+From CV Require Import Gen.GoArith.
+From CV Require Import Frame.FrameGoAgree.
 Open Scope Z_scope.
 
 (* Any list of messages written by Encoder.Encode (repaired: unaligned segments are refused),
@@ -15,7 +23,7 @@ Open Scope Z_scope.
 Theorem C14_decode_encode_stream : forall msgs frames cs hc bc ru mx,
   max_ok mx ->
   Forall2 (fun m f => encode true m = Ok f) msgs frames ->
-  Forall (fun m => len m <= max_stream_segments + 1) msgs ->
+  Forall (fun m => len m <= max_stream_segments) msgs ->
   Forall (fun f => len f <= eff_max mx) frames ->
   concat cs = concat frames ->
   exists st' outs,
@@ -53,10 +61,10 @@ Theorem C14_alloc_bound : forall cs fin hc bc ru mx st' out log,
   bytes_ok (concat cs) -> 0 <= mx < two64 ->
   decode1 (mkD (mkReader cs fin) hc bc ru mx) = (st', out, log) ->
   0 <= alloc_bytes log <= eff_max mx /\
-  0 <= alloc_table log <= max_stream_segments + 1 /\
+  0 <= alloc_table log <= max_stream_segments /\
   out <> DPanic /\
   (forall segs, out = DMsg segs ->
-     1 <= len segs <= max_stream_segments + 1 /\ segs_ok segs /\
+     1 <= len segs <= max_stream_segments /\ segs_ok segs /\
      stream_header_size (len segs - 1) + sum_len segs <= eff_max mx) /\
   bytes_ok (concat (r_chunks (d_rd st'))) /\ d_max st' = mx.
 Proof. exact alloc_bound. Qed.
@@ -66,8 +74,8 @@ Print Assumptions C14_alloc_bound.
 Theorem C14_alloc_bound_history : forall ops st st' outs,
   (forall m, ~ In (OpSetMax m) ops) -> st_ok st -> run_history st ops = (st', outs) ->
   Forall (fun ol => 0 <= alloc_bytes (snd ol) <= eff_max (d_max st) /\
-                    alloc_table (snd ol) <= max_stream_segments + 1 /\ fst ol <> DPanic /\
-                    forall segs, fst ol = DMsg segs -> len segs <= max_stream_segments + 1) outs.
+                    alloc_table (snd ol) <= max_stream_segments /\ fst ol <> DPanic /\
+                    forall segs, fst ol = DMsg segs -> len segs <= max_stream_segments) outs.
 Proof. exact alloc_bound_history. Qed.
 Print Assumptions C14_alloc_bound_history.
 
@@ -101,6 +109,87 @@ Theorem C14_read_full_chunking : forall cs fin need got,
 Proof. exact read_full_loop_flat. Qed.
 Print Assumptions C14_read_full_chunking.
 
+(* ---------------------------------------------------------------- packed paths (C13 composed with C14) *)
+
+(* bufio.Reader is not modelled: packed.Reader's two questions to it (Buffered() >= 9 for the
+   fast path, Buffered() < 9 for a short read) are free oracles [orc]; "any chunking of the
+   packed stream" is "any oracle". *)
+
+(* MarshalPacked then UnmarshalPacked returns the segments *)
+Theorem C14_unmarshal_packed_marshal_packed : forall segs, count_ok segs -> segs_ok segs -> msg_bytes segs ->
+  exists p, marshal_packed segs = Ok p /\ unmarshal_packed p = Ok segs.
+Proof. exact unmarshal_packed_marshal_packed. Qed.
+Print Assumptions C14_unmarshal_packed_marshal_packed.
+
+(* any message list written by NewPackedEncoder and read by NewPackedDecoder from the
+   concatenated packed stream, every oracle, reuse on/off, any buffer state: the messages in
+   order, then io.EOF *)
+Theorem C14_decode_packed_encode_packed : forall msgs P orc hc bc ru mx,
+  max_ok mx -> Forall (pmsg_ok mx) msgs -> encode_packed_stream msgs = Ok P ->
+  exists st' outs,
+    pdecode_n (mkD (p_init orc P) hc bc ru mx) (S (length msgs)) = (st', outs)
+    /\ map fst outs = map DMsg msgs ++ [DEof].
+Proof. exact decode_packed_encode_packed. Qed.
+Print Assumptions C14_decode_packed_encode_packed.
+
+(* a packed string accepted by the one-shot decoder whose unpacked form ends strictly inside a
+   frame (a packed stream cut at a packed-item boundary that is not a frame boundary): whole
+   frames, then an error, never io.EOF *)
+Theorem C14_packed_cut_is_error : forall msgs m q tail qp orc hc bc ru mx,
+  max_ok mx -> Forall (frame_ok mx) msgs -> frame_ok mx m ->
+  frame m = q ++ tail -> q <> [] -> tail <> [] ->
+  bytes_ok qp -> unpack qp = Some (concat (map frame msgs) ++ q) ->
+  exists st' outs e,
+    pdecode_n (mkD (p_init orc qp) hc bc ru mx) (S (length msgs)) = (st', outs)
+    /\ map fst outs = map DMsg msgs ++ [DErr e] /\ (e = EReadHeader \/ e = EReadSegs).
+Proof. exact packed_cut_is_error. Qed.
+Print Assumptions C14_packed_cut_is_error.
+
+(* a packed stream cut inside a packed item (the one-shot decoder rejects the prefix): no Decode
+   call reports io.EOF before one has reported an error *)
+Theorem C14_packed_cut_inside_item_no_eof : forall qp orc hc bc ru mx n st' outs,
+  bytes_ok qp -> unpack qp = None ->
+  pdecode_n (mkD (p_init orc qp) hc bc ru mx) n = (st', outs) ->
+  no_eof_before_error (map fst outs).
+Proof. exact packed_cut_inside_item_no_eof. Qed.
+Print Assumptions C14_packed_cut_inside_item_no_eof.
+
+(* prefixes of a packed stream accepted by the one-shot decoder unpack to prefixes of the
+   unpacked stream; and the one-shot decoder is compositional *)
+Theorem C14_packed_prefix : forall qp rest U o,
+  unpack (qp ++ rest) = Some U -> unpack qp = Some o -> exists o', U = o ++ o' /\ unpack rest = Some o'.
+Proof. exact packed_prefix_unpacks_to_prefix. Qed.
+Print Assumptions C14_packed_prefix.
+
+Theorem C14_unpack_app : forall a oa b, unpack a = Some oa -> unpack (a ++ b) = option_map (app oa) (unpack b).
+Proof. exact unpack_app. Qed.
+Print Assumptions C14_unpack_app.
+
+(* C04's last sentence at the segment level: every serialisation path returns the same
+   segment list (cited by Properties_C04.v) *)
+Theorem all_paths_same_segments : forall segs mx, max_ok mx -> frame_ok mx segs -> msg_bytes segs ->
+  exists b p pe,
+    marshal segs = Ok b /\ encode true segs = Ok b /\
+    marshal_packed segs = Ok p /\ encode_packed true segs = Ok pe /\
+    unmarshal b = Ok segs /\
+    unmarshal_packed p = Ok segs /\
+    (forall cs hc bc ru, concat cs = b ->
+       exists st' log, decode1 (mkD (mkReader cs EOF) hc bc ru mx) = (st', DMsg segs, log)) /\
+    (forall orc hc bc ru,
+       exists st' log, pdecode1 (mkD (p_init orc pe) hc bc ru mx) = (st', DMsg segs, log)) /\
+    unmarshal_packed pe = Ok segs /\
+    (forall orc hc bc ru,
+       exists st' log, pdecode1 (mkD (p_init orc p) hc bc ru mx) = (st', DMsg segs, log)).
+Proof. exact FramePackedThms.all_paths_same_segments. Qed.
+Print Assumptions all_paths_same_segments.
+
+(* tie to the translated Go source (coq/Gen/GoArith.v is regenerated from /repo by gotrans on
+   every run): the overflow-checked multiplication used by segmentSize is Size.times *)
+Theorem C14_word_times_is_go_times : forall n, -2147483648 <= n < 2147483648 ->
+  go_times word_size n = match word_times n with Some x => (x, true) | None => (4294967295, false) end.
+Proof. exact word_times_is_go_times. Qed.
+Print Assumptions C14_word_times_is_go_times.
+
 (* findings / observations kept as refuted variants *)
 (* F21: Encode as found accepts an unaligned segment: corrupt frame, panic in the packed encoder *)
 Theorem C14_encode_unaligned_refuted :
@@ -110,6 +199,16 @@ Theorem C14_encode_unaligned_refuted :
   /\ encode_packed false [[1; 2; 3; 4; 5; 6; 7; 8; 9]] = Panic.
 Proof. exact encode_unaligned_refuted. Qed.
 Print Assumptions C14_encode_unaligned_refuted.
+
+(* F22 (was O1): the segment-count check as found accepted 513 segments; repaired: 512 *)
+Theorem C14_accepts_513_refuted :
+  let hdr512 := le32 511 ++ zeros (4 * 512 + 4) in
+  let hdr513 := le32 512 ++ zeros (4 * 513) in
+  (exists segs, snd (fst (decode1_gen false (d_init (mkReader [hdr513] EOF) 0))) = DMsg segs /\ len segs = 513) /\
+  snd (fst (decode1 (d_init (mkReader [hdr513] EOF) 0))) = DErr ETooManySegs /\
+  (exists segs, snd (fst (decode1 (d_init (mkReader [hdr512] EOF) 0))) = DMsg segs /\ len segs = 512).
+Proof. exact accepts_513_refuted. Qed.
+Print Assumptions C14_accepts_513_refuted.
 
 (* O3: segmentSize computes 4+i*4 in uint32: entry 2^30-1 is read from offset 0 *)
 Theorem C14_seg_index_wraps : seg_index 1073741823 = 0.
